@@ -10,6 +10,7 @@ Regenerated, as shallow terms over ℕ/ℤ and an operation-polymorphic number t
     (copy of the input, one `read_neighbors` per frame, accumulation from the un-averaged input).
 Anything else raises Unrecognised (a broken tie, never a crash)."""
 import ast
+import re
 
 from pms2lean import Unrecognised, find_func, generator, lean_escape, read, strip_doc
 
@@ -51,6 +52,13 @@ class Num:
             return self.atoms[key]
         if isinstance(e, ast.Constant) and isinstance(e.value, int) and not isinstance(e.value, bool):
             return (f"({e.value} : Int)" if e.value >= 0 else f"(-{-e.value} : Int)"), "int"
+        if isinstance(e, ast.Constant) and isinstance(e.value, float):
+            from fractions import Fraction
+            r = repr(e.value)
+            if "e" in r or "n" in r:
+                raise Unrecognised("float literal " + r)
+            q = Fraction(r)
+            return f"((({q.numerator} : Int) : α) / (({q.denominator} : Int) : α))", "fld"
         if isinstance(e, ast.UnaryOp) and isinstance(e.op, ast.USub):
             t, k = self.p(e.operand)
             return f"(-{t})", k
@@ -452,17 +460,51 @@ def gen_blur(fn, gg, out):
     out.append("")
 
 
+def _reference(name):
+    """the section as regenerated from the repaired source (kept in translator/gens/coarse_reference.txt).  Used ONLY when
+    the walker does not recognise the current source, so that the Lean project still builds; the run then reports
+    `translator:coarse` as a broken tie and the failing-input search takes over."""
+    import os
+    with open(os.path.join(os.path.dirname(os.path.abspath(__file__)), "coarse_reference.txt")) as f:
+        text = f.read()
+    m = re.search(r"^-- BEGIN " + name + r"\n(.*?)^-- END " + name + r"\n", text, re.S | re.M)
+    return m.group(1).split("\n")[:-1]
+
+
 @generator("coarse")
 def gen_coarse(repo):
+    import os
     src = read(repo, REL)
-    tree = ast.parse(src)
     fsrc = read(repo, REL_F)
-    ftree = ast.parse(fsrc)
-    out = ["import Pms.Model.Prelude",
-           f"/-! REGENERATED by translator/gens/coarse.py from {REL} and {REL_F} — do not edit -/",
-           "set_option linter.unusedVariables false", "namespace Pms.Gen.Coarse", ""]
-    gen_time(find_func(tree, "time_average"), out)
-    gen_spatial(find_func(tree, "spatial_average"), out)
-    gen_blur(find_func(tree, "gaussian_blurring"), find_func(ftree, "grid_gaussian"), out)
-    out.append("end Pms.Gen.Coarse")
-    return [("Pms/Gen/Coarse.lean", "\n".join(out) + "\n", [REL, REL_F])]
+    head = ["import Pms.Model.Prelude",
+            f"/-! REGENERATED by translator/gens/coarse.py from {REL} and {REL_F} — do not edit -/",
+            "set_option linter.unusedVariables false", "namespace Pms.Gen.Coarse", ""]
+    sections = [("time", lambda t, ft, o: gen_time(find_func(t, "time_average"), o)),
+                ("spatial", lambda t, ft, o: gen_spatial(find_func(t, "spatial_average"), o)),
+                ("blur", lambda t, ft, o: gen_blur(find_func(t, "gaussian_blurring"), find_func(ft, "grid_gaussian"), o))]
+    errors, body = [], []
+    try:
+        tree, ftree = ast.parse(src), ast.parse(fsrc)
+    except SyntaxError as e:
+        tree = ftree = None
+        errors.append(f"syntax error: {e}")
+    for name, fn in sections:
+        o = []
+        try:
+            if tree is None:
+                raise Unrecognised("source does not parse")
+            fn(tree, ftree, o)
+        except Exception as e:  # noqa: BLE001 — any walker failure is an unrecognised shape
+            errors.append(f"{name}: {type(e).__name__}: {e}")
+            o = [f"-- section `{name}`: source shape NOT recognised; reference text (a broken tie is reported by the run)"] + _reference(name)
+        body += [f"-- BEGIN {name}"] + o + [f"-- END {name}"]
+    text = "\n".join(head + body + ["end Pms.Gen.Coarse"]) + "\n"
+    if errors:
+        # keep the Lean project buildable, then report the broken tie
+        path = os.path.join(os.path.dirname(os.path.dirname(os.path.dirname(os.path.abspath(__file__)))), "lean", "Pms", "Gen", "Coarse.lean")
+        old = open(path).read() if os.path.exists(path) else None
+        if old != text:
+            with open(path, "w") as f:
+                f.write(text)
+        raise Unrecognised("; ".join(errors))
+    return [("Pms/Gen/Coarse.lean", text, [REL, REL_F])]
